@@ -1087,7 +1087,64 @@ def rule_r16(ctx, sf: SqlFacts) -> RuleResult:
     return rr
 
 
+def rule_r17(ctx, sf: SqlFacts) -> RuleResult:
+    """add_page is an overwrite: afterwards every spelling returns what was passed.  A return in front of the upsert is
+    compatible with that only if the row would not change, i.e. its condition establishes that *every* column the upsert
+    writes already holds the new value.  An "unchanged page" test that compares some columns but not others keeps the old
+    value of the columns it forgot (seed C10-8B: body, redirect and flag compared, the content model not)."""
+    rr = RuleResult("C10.R17", "add_page skips the write only when every upserted column is unchanged", min_instances=1)
+    dotted = "core.Wtp.add_page"
+    fn = ctx.fn(dotted)
+    ins = [s_ for s_ in sf.in_function(dotted) if s_.kind == "INSERT" and s_.table == "pages"]
+    if len(ins) != 1:
+        raise AnalysisError("expected exactly one INSERT INTO pages in add_page, found {}".format(len(ins)))
+    cols = [c for c, _ in ins[0].set_pairs]
+    if not cols:
+        raise AnalysisError("add_page: the upsert's DO UPDATE SET list was not recognised")
+    parents = {c: p_ for p_ in ast.walk(fn) for c in ast.iter_child_nodes(p_)}
+    wline = ins[0].call.lineno
+    early = [r for r in walk_no_nested(fn) if isinstance(r, ast.Return) and r.lineno < wline]
+    n_unchanged = 0
+    for r in early:
+        conds = _p().path_conditions(parents, r)
+        compared = set()
+        for t, truth in conds:
+            if not truth:
+                continue
+            def conjuncts(e):
+                if isinstance(e, ast.BoolOp) and isinstance(e.op, ast.And):
+                    for v in e.values:
+                        yield from conjuncts(v)
+                else:
+                    yield e
+            for c in [x for x in conjuncts(t) if isinstance(x, ast.Compare)]:
+                if len(c.ops) == 1 and isinstance(c.ops[0], (ast.Eq, ast.Is)):
+                    for side in (c.left, c.comparators[0]):
+                        if isinstance(side, ast.Attribute) and isinstance(side.value, ast.Name) and side.attr in cols + ["title", "namespace_id"]:
+                            compared.add(side.attr)
+        if not compared - {"title", "namespace_id"}:
+            continue   # not an "unchanged row" test (argument validation etc.)
+        n_unchanged += 1
+        missing = [c for c in cols if c not in compared]
+        if missing:
+            rr.bad(Finding("C10.R17", CORE, dotted, "return before the upsert when {} are unchanged".format(", ".join(sorted(compared))),
+                           "add_page returns without writing when the stored row agrees in {} -- but the upsert also writes {}: a page added "
+                           "again with only that changed keeps the old value under every spelling".format(
+                               ", ".join(sorted(compared)), ", ".join(missing)), r.lineno))
+        else:
+            rr.ok(dotted, "skip-if-unchanged compares every upserted column (line {})".format(r.lineno))
+    if n_unchanged == 0:
+        rr.ok(dotted, "no return in front of the upsert depends on the stored row ({} early returns examined)".format(len(early)))
+    return rr
+
+
+def _p():
+    from . import _expand
+
+    return _expand
+
+
 def run(ctx) -> list:
     sf = SqlFacts(ctx.index)
     return [rule_r1(ctx, sf), rule_r2(ctx, sf), rule_r3(ctx, sf), rule_r4(ctx, sf), rule_r5(ctx, sf), rule_r6(ctx, sf),
-            rule_r7(ctx, sf), rule_r8(ctx), rule_r9(ctx), rule_r10(ctx), rule_r11(ctx, sf), rule_r12(ctx, sf), rule_r13(ctx), rule_r14(ctx), rule_r15(ctx), rule_r16(ctx, sf)]
+            rule_r7(ctx, sf), rule_r8(ctx), rule_r9(ctx), rule_r10(ctx), rule_r11(ctx, sf), rule_r12(ctx, sf), rule_r13(ctx), rule_r14(ctx), rule_r15(ctx), rule_r16(ctx, sf), rule_r17(ctx, sf)]
